@@ -424,6 +424,9 @@ class OutgoingBallsHandler(BallDeviceStateHandler):
             result = await self._handle_confirm(eject_request, ball_eject_process, incoming_ball_at_target,
                                                 eject_try)
             await self.ball_device.ball_count_handler.end_eject(ball_eject_process, result)
+            # The count has been updated. Leave ball_left/failed_confirm right away. Otherwise, BallDevice.balls
+            # subtracts the ejected ball a second time (and may become negative) until the state changes.
+            self.ball_device.set_eject_state("ejecting")
 
             # Check if more balls left than expected, meaning the ejector kicked out multiple
             # balls. If so, tag those missing balls as lost (except for mechanical ejects, which
